@@ -183,6 +183,7 @@ func init() {
 			{ID: "C06.R6", Floor: 2, Doc: "StreamFinished/StreamAbandoned only inside streamObserverEndOnce.Do", Run: c06r6},
 			{ID: "C06.R7", Floor: 1, Doc: "recv: the no-handler path discards the frame body before returning", Run: c06r7},
 			{ID: "C06.R8", Floor: 3, Doc: "goroutine stopped by a bare blocking send on a quit channel: every return inside its loop is preceded by a receive from that channel", Run: c06r8},
+			{ID: "C06.R10", Floor: 2, Doc: "contextWriter contract: no context consultation after hand-over (a released stream whose frame is still queued breaks release-once)", Run: c07r4},
 			{ID: "C06.R9", Floor: 5, Doc: "every unconditional goroutine loop has a select case on a quit/ctx channel that leaves the loop", Run: c06r9},
 		},
 	})
